@@ -172,11 +172,11 @@ SM_ADMISSION = ("user requests are taken only if inflight < max and no collision
                 "rumqttc::EventLoop::select (async, not executable by the solver; its text is pinned by a syntactic guard)")
 
 SM_QUICK = {
-    "C02": ["out_publish_via_pending_m2", "out_publish_m2", "out_publish_m1", "in_puback_m1", "in_puback_m2", "in_pubrec_m2", "in_pubcomp_m1", "in_pubcomp_m2",
+    "C02": ["out_publish_via_pending_m2", "out_pubrel_m2", "out_publish_m2", "out_publish_m1", "in_puback_m1", "in_puback_m2", "in_pubrec_m2", "in_pubcomp_m1", "in_pubcomp_m2",
             "out_subscribe_m2", "out_ping_m2"],
-    "C07": ["out_publish_m1", "out_publish_m2", "out_subscribe_m2", "in_puback_m1", "in_puback_m2", "in_pubrec_m2",
+    "C07": ["out_pubrel_m2", "out_publish_m1", "out_publish_m2", "out_subscribe_m2", "in_puback_m1", "in_puback_m2", "in_pubrec_m2",
             "in_pubcomp_m1", "in_pubcomp_m2"],
-    "C10": ["in_puback_m2", "in_pubrec_m2", "in_pubcomp_m2", "in_publish_m2", "in_pubrel_m2", "in_misc_m2", "out_publish_m2",
+    "C10": ["out_pubrel_m2", "in_puback_m2", "in_pubrec_m2", "in_pubcomp_m2", "in_publish_m2", "in_pubrel_m2", "in_misc_m2", "out_publish_m2",
             "out_subscribe_m2", "out_ping_m2"],
     "C11": ["in_puback_m1", "in_puback_m2", "in_puback_m3"],
     "C18": ["out_ping_m2", "in_misc_m2", "scn_ping_reconnect_m2"],
@@ -184,8 +184,8 @@ SM_QUICK = {
 # harnesses whose clauses of this property are known to fail on the unchanged tree are listed in known_findings.json
 SM_ALL = {
     "C02": ["out_", "in_", "scn_ping"],
-    "C07": ["out_publish_m", "out_subscribe", "out_ping", "in_"],
-    "C10": ["out_publish_m", "out_subscribe", "out_ping", "in_", "scn_ping"],
+    "C07": ["out_publish_m", "out_pubrel", "out_subscribe", "out_ping", "in_"],
+    "C10": ["out_publish_m", "out_pubrel", "out_subscribe", "out_ping", "in_", "scn_ping"],
     "C11": ["in_puback_m"],
     "C18": ["out_ping", "in_misc", "scn_ping"],
 }
@@ -289,11 +289,12 @@ PROPS["C12"] = {
          "stubs": ["core::slice::memchr::{memchr, memrchr} -> byte loops with the same contract (the word-at-a-time originals do not finish)"],
          "outside": ["strings longer than 5 bytes; alphabet beyond the 7 symbols (level structure is what the rules are about)",
                      "DataLog::matches cache (HashMap)"]},
-        {"name": "matches", "filters": ["c12::m_c4_t0_", "c12::m_c4_t1_f0", "c12::m_c4_t1_f1", "c12::m_c4_t1_f2", "c12::m_c4_t2_f0",
+        {"name": "matches", "filters": ["c12::m_c4_t0_", "c12::m_c5_t0_f", "c12::m_d_t0_f", "c12::m_c4_t1_f0", "c12::m_c4_t1_f1", "c12::m_c4_t1_f2", "c12::m_c4_t2_f0",
                                         "c12::m_c4_t2_f1", "c12::m_c4_t2_f2", "c12::m_c5_t1_f1", "c12::m_c5_t2_f1", "c12::m_c5_t2_f2",
                                         "c12::m_d_t1_f1", "c12::m_d_t2_f1", "c12::m_d_t2_f2", "c12::agree_t1_f1", "c12::agree_t2_f1"],
-         "filters_quick": ["c12::m_c4_t1_f1", "c12::m_c4_t2_f1", "c12::m_c5_t1_f1", "c12::m_c5_t2_f1", "c12::m_d_t1_f1", "c12::m_d_t2_f1"],
-         "min_harnesses_quick": 6, "min_harnesses": 15,
+         "filters_quick": ["c12::m_c4_t1_f1", "c12::m_c4_t2_f1", "c12::m_c5_t1_f1", "c12::m_c5_t2_f1", "c12::m_d_t1_f1", "c12::m_d_t2_f1",
+                           "c12::m_c4_t0_f1", "c12::m_c5_t0_f1", "c12::m_d_t0_f1", "c12::m_c4_t0_f2", "c12::m_c5_t0_f2", "c12::m_d_t0_f2"],
+         "min_harnesses_quick": 12, "min_harnesses": 15,
          "tier": "quick", "timeout_quick": 900, "timeout_thorough": 2400, "jobs": 6,
          "kind": "R (byte-level reference matcher on valid pairs) + totality on all pairs, one copy per harness; D (3-copy agreement) in thorough",
          "bounds": "topic and filter of CONCRETE lengths (pairs up to 2x2; quick: 1x1 and 2x1 for each copy), contents symbolic over "
